@@ -126,7 +126,8 @@ pub fn on_edge(guard_id: u32) {
     // how often has this thread executed this edge in this run? (epoch-stamped counters,
     // so nothing is cleared between runs)
     let epoch = EDGE_EPOCH.with(|c| c.get()) & 0x00ff_ffff;
-    let count = EDGE_SEEN.with(|v| {
+    let count = EDGE_SEEN
+        .try_with(|v| {
         let mut v = v.borrow_mut();
         let idx = guard_id as usize;
         if idx >= v.len() {
@@ -138,7 +139,8 @@ pub fn on_edge(guard_id: u32) {
         let c = c.min(255);
         v[idx] = (epoch << 8) | c;
         c
-    });
+    })
+        .unwrap_or(u32::MAX);
     // deterministic sampling: a per-thread generator that advances once per edge
     let sampled = EDGE_RNG.with(|r| {
         let mut x = r.get();
@@ -154,7 +156,7 @@ pub fn on_edge(guard_id: u32) {
     if (MASK.with(|m| m.get()) >> SITE_EDGE) & 1 == 0 {
         return;
     }
-    let sim = SIM.with(|s| s.borrow().clone());
+    let sim = SIM.try_with(|s| s.borrow().clone()).ok().flatten();
     if let Some(sim) = sim {
         EDGE_OFFERS.with(|c| c.set(c.get() + 1));
         sim.site(SITE_EDGE, true);
@@ -241,7 +243,7 @@ fn on_step(site_id: u32) {
 
 fn on_step_inner(site_id: u32) {
     let idx = (site_id as usize).min(NSITES - 1);
-    PROBES.with(|p| p.borrow_mut()[idx] += 1);
+    let _ = PROBES.try_with(|p| p.borrow_mut()[idx] += 1);
     if site_id == site::BLOCK_TABLE_INIT {
         // runs under the OnceLock: count it, never act on it
         COLD_INIT.with(|c| c.set(true));
@@ -270,6 +272,8 @@ fn on_step_inner(site_id: u32) {
         leave_cb();
         std::panic::resume_unwind(Box::new(SimUnwind::Crash));
     }
+    // (thread-locals that own heap data may already be destroyed when a call is made from a
+    // thread-local destructor at thread exit: use try_with for those)
     // scheduler: only the first PREEMPT_STEPS steps of a call are preemptible. Beyond that
     // (catastrophic backtracking, divergence) more interleavings add nothing and cost a
     // context switch each; the decision depends on the call's own step count only, so it is
@@ -277,7 +281,7 @@ fn on_step_inner(site_id: u32) {
     if s > PREEMPT_STEPS {
         return;
     }
-    let sim = SIM.with(|s| s.borrow().clone());
+    let sim = SIM.try_with(|s| s.borrow().clone()).ok().flatten();
     if let Some(sim) = sim {
         let preemptible = (MASK.with(|m| m.get()) >> idx) & 1 == 1;
         if preemptible || sim.must_park() {
